@@ -9,11 +9,38 @@ Shared by C01, C02, C03 and C05.
 -/
 namespace Martian.Proxy
 
+/-- The error VALUE a modifier returns. `proxy.go` tests error values in one place only
+(`isCloseable`, on what `handle` returns to the serving loop); a modifier's error must never get
+there, whatever it is - including the values that are closeable when they come from the connection
+(a body-parsing modifier returns `io.EOF`, one that calls a slow backend a deadline error). -/
+inductive ErrVal
+  | plain          -- errors.New
+  | wrapped        -- fmt.Errorf("…: %w", io.EOF)
+  | multi          -- *martian.MultiError of ordinary errors
+  | multiEof       -- *martian.MultiError holding io.EOF and io.ErrClosedPipe
+  | unexpectedEof  -- io.ErrUnexpectedEOF
+  | canceled       -- context.Canceled
+  | refused        -- *net.OpError, not a timeout
+  | eof            -- io.EOF
+  | closedPipe     -- io.ErrClosedPipe
+  | timeout        -- a net.Error with Timeout() = true
+  | opTimeout      -- *net.OpError wrapping one
+  | deadline       -- os.ErrDeadlineExceeded
+  | ctxDeadline    -- context.DeadlineExceeded
+  | dnsTimeout     -- *net.DNSError{IsTimeout: true}
+  deriving Repr, DecidableEq
+
+/-- `isCloseable` of proxy.go on these values: `err.(net.Error)` with `Timeout()`, or identical to
+`io.EOF` / `io.ErrClosedPipe` (`errClose` is unexported: no modifier can return it). -/
+def ErrVal.closeable : ErrVal → Bool
+  | .eof | .closedPipe | .timeout | .opTimeout | .deadline | .ctxDeadline | .dnsTimeout => true
+  | _ => false
+
 /-- What the request modifier does on this exchange. -/
-inductive ReqB | pass | err | skip | errSkip | hijack
+inductive ReqB | pass | err (v : ErrVal) | skip | errSkip (v : ErrVal) | hijack
   deriving Repr, DecidableEq
 /-- What the response modifier does. -/
-inductive ResB | pass | err | hijack
+inductive ResB | pass | err (v : ErrVal) | hijack
   deriving Repr, DecidableEq
 
 /-- What the origin (or the dial) does. -/
@@ -35,13 +62,16 @@ structure St where
   secure : Bool := false      -- `session.IsSecure()` (sticky)
   connTls : Bool := false     -- the `conn` argument `handle` receives is the decrypted TLS connection
   sessTls : Bool := false     -- `session.conn` (what a hijacker is handed) is the decrypted connection
+  tlsId : Nat := 0            -- which TLS session `conn` is: 0 none, 1 the listener's, `j + 2` the one
+                              -- negotiated inside the tunnel of the CONNECT with index `j`
   deriving Repr, DecidableEq
 
 inductive Ev
   | read (i : Nat)
   | link (c : Nat)
   | unlink (c : Nat)
-  | reqmod (i c : Nat) (https secure tls : Bool)      -- what the request modifier sees
+  | reqmod (i c : Nat) (https secure tls : Bool) (tid : Nat)  -- what the request modifier sees; `tid` = whose
+                                                              -- `tls.ConnectionState` is in `req.TLS` (0: nil)
   | warnReq (i : Nat)
   | dial (i : Nat) (ok : Bool)
   | upstream (i : Nat) (tls : Bool)
@@ -50,20 +80,29 @@ inductive Ev
   | warnRes (i : Nat)
   | write (i : Nat) (status : Nat) (closeMark complete : Bool)
   | tunnel (i : Nat)                                  -- blind tunnel ran to completion
-  | hijacked (i : Nat) (tlsConn : Bool)               -- modifier took the connection; `tlsConn` = it got the decrypted one
+  | hijacked (i : Nat) (tlsConn : Bool) (tid : Nat)   -- modifier took the connection; `tlsConn` = it got the decrypted
+                                                      -- one, `tid` = of which TLS session (0: a raw connection)
   | closeConn
   deriving Repr, DecidableEq
 
 inductive Next | again (s : St) | close | hijack
   deriving Repr, DecidableEq
 
-def rqErr : ReqB → Bool | .err => true | .errSkip => true | _ => false
-def rqSkip : ReqB → Bool | .skip => true | .errSkip => true | _ => false
+def rqErr : ReqB → Bool | .err _ => true | .errSkip _ => true | _ => false
+def rqSkip : ReqB → Bool | .skip => true | .errSkip _ => true | _ => false
+def rsErr : ResB → Bool | .err _ => true | _ => false
 
 /-- The common head of `handle`: read, link, security marking, request modifier, Warning. -/
 def pre (s : St) (i c : Nat) (rq : ReqB) : List Ev :=
   let secure := s.secure || s.connTls
-  [.read i, .link c, .reqmod i c secure secure s.connTls] ++ (if rqErr rq then [.warnReq i] else [])
+  -- `req.TLS` is taken from the connection `handle` was given (`conn.(*tls.Conn).ConnectionState()`),
+  -- on every request anew
+  [.read i, .link c, .reqmod i c secure secure s.connTls (if s.connTls then s.tlsId else 0)] ++
+    (if rqErr rq then [.warnReq i] else [])
+
+/-- What `Session.Hijack()` hands out: `session.conn`, which `setConn` re-points to the decrypted
+connection of the innermost tunnel. -/
+def hijTid (s : St) : Nat := if s.sessTls then s.tlsId else 0
 
 def stAfter (s : St) : St := { s with secure := s.secure || s.connTls }
 
@@ -72,7 +111,7 @@ def handleX (shutdown : Bool) (s : St) (i c : Nat) (reqClose : Bool) (rq : ReqB)
     List Ev × Next :=
   let s' := stAfter s
   let p := pre s i c rq
-  if rq = .hijack then (p ++ [.hijacked i s.sessTls, .unlink c], .hijack) else
+  if rq = .hijack then (p ++ [.hijacked i s.sessTls (hijTid s), .unlink c], .hijack) else
   -- round trip
   let (up, status, resClose, complete) : List Ev × Nat × Bool × Bool :=
     if rqSkip rq then ([], 200, false, true) else
@@ -80,8 +119,8 @@ def handleX (shutdown : Bool) (s : St) (i c : Nat) (reqClose : Bool) (rq : ReqB)
     | .ok st cl => ([.upstream i s'.secure], st, cl, true)
     | .fail => ([.upstream i s'.secure, .warnRt i], 502, false, true)
     | .trunc st => ([.upstream i s'.secure], st, false, false)
-  let post := [Ev.resmod i c status] ++ (if rs = .err then [Ev.warnRes i] else [])
-  if rs = .hijack then (p ++ up ++ post ++ [.hijacked i s.sessTls, .unlink c], .hijack) else
+  let post := [Ev.resmod i c status] ++ (if rsErr rs then [Ev.warnRes i] else [])
+  if rs = .hijack then (p ++ up ++ post ++ [.hijacked i s.sessTls (hijTid s), .unlink c], .hijack) else
   let closing := reqClose || resClose || shutdown
   (p ++ up ++ post ++ [.write i status closing complete, .unlink c],
     if closing || !complete then .close else .again s')
@@ -90,23 +129,25 @@ def handleX (shutdown : Bool) (s : St) (i c : Nat) (reqClose : Bool) (rq : ReqB)
 def handleMitm (s : St) (i c : Nat) (tls : Bool) (rq : ReqB) (rs : ResB) : List Ev × Next :=
   let s' := stAfter s
   let p := pre s i c rq
-  if rq = .hijack then (p ++ [.hijacked i s.sessTls, .unlink c], .hijack) else
-  let post := [Ev.resmod i c 200] ++ (if rs = .err then [Ev.warnRes i] else [])
-  if rs = .hijack then (p ++ post ++ [.hijacked i s.sessTls, .unlink c], .hijack) else
+  if rq = .hijack then (p ++ [.hijacked i s.sessTls (hijTid s), .unlink c], .hijack) else
+  let post := [Ev.resmod i c 200] ++ (if rsErr rs then [Ev.warnRes i] else [])
+  if rs = .hijack then (p ++ post ++ [.hijacked i s.sessTls (hijTid s), .unlink c], .hijack) else
   -- the CONNECT request stays linked while its tunnel is served (`defer unlink` runs at return);
   -- the trace records the unlink at the point the tunnel's requests start (see `run`).
   (p ++ post ++ [.write i 200 false true],
-    .again (if tls then { secure := true, connTls := true, sessTls := true } else s'))
+    -- a handshake inside the tunnel is a TLS session of its own (`tls.Server` over whatever `conn` is),
+    -- and from here on `handle` is given that connection
+    .again (if tls then { secure := true, connTls := true, sessTls := true, tlsId := i + 2 } else s'))
 
 /-- CONNECT without MITM. -/
 def handleBlind (s : St) (i c : Nat) (dialOk : Bool) (rq : ReqB) (rs : ResB) : List Ev × Next :=
   let s' := stAfter s
   let p := pre s i c rq
-  if rq = .hijack then (p ++ [.hijacked i s.sessTls, .unlink c], .hijack) else
+  if rq = .hijack then (p ++ [.hijacked i s.sessTls (hijTid s), .unlink c], .hijack) else
   let status := if dialOk then 200 else 502
   let d := [Ev.dial i dialOk] ++ (if dialOk then [] else [Ev.warnRt i])
-  let post := [Ev.resmod i c status] ++ (if rs = .err then [Ev.warnRes i] else [])
-  if rs = .hijack then (p ++ d ++ post ++ [.hijacked i s.sessTls, .unlink c], .hijack) else
+  let post := [Ev.resmod i c status] ++ (if rsErr rs then [Ev.warnRes i] else [])
+  if rs = .hijack then (p ++ d ++ post ++ [.hijacked i s.sessTls (hijTid s), .unlink c], .hijack) else
   -- `res.ContentLength = -1`: net/http marks such a response `Connection: close`
   if dialOk then (p ++ d ++ post ++ [.write i 200 true true, .tunnel i, .unlink c], .close)
   else (p ++ d ++ post ++ [.write i 502 false true, .unlink c], .again s')
@@ -138,7 +179,7 @@ def runConn (shutdown : Bool) (base : Nat) (items : List Item) : List Ev :=
 
 /-- A connection accepted on a transparent TLS listener: `handle` receives the TLS connection from
 the first request on, and the session holds it. -/
-def tlsListenerState : St := { secure := false, connTls := true, sessTls := true }
+def tlsListenerState : St := { secure := false, connTls := true, sessTls := true, tlsId := 1 }
 
 def runConnOn (s0 : St) (shutdown : Bool) (base : Nat) (items : List Item) : List Ev :=
   run shutdown base s0 0 [] items
@@ -152,13 +193,13 @@ def servedCount : List Ev → Nat
 
 def countP (p : Ev → Bool) (l : List Ev) : Nat := (l.filter p).length
 
-def isReqmod (i : Nat) : Ev → Bool | .reqmod j _ _ _ _ => j == i | _ => false
+def isReqmod (i : Nat) : Ev → Bool | .reqmod j _ _ _ _ _ => j == i | _ => false
 def isResmod (i : Nat) : Ev → Bool | .resmod j _ _ => j == i | _ => false
 def isUpstream (i : Nat) : Ev → Bool | .upstream j _ => j == i | .dial j _ => j == i | _ => false
 def isWrite (i : Nat) : Ev → Bool | .write j _ _ _ => j == i | _ => false
 def isWarnReq (i : Nat) : Ev → Bool | .warnReq j => j == i | _ => false
 def isWarnRes (i : Nat) : Ev → Bool | .warnRes j => j == i | _ => false
 def isWarnRt (i : Nat) : Ev → Bool | .warnRt j => j == i | _ => false
-def isHijacked (i : Nat) : Ev → Bool | .hijacked j _ => j == i | _ => false
+def isHijacked (i : Nat) : Ev → Bool | .hijacked j _ _ => j == i | _ => false
 
 end Martian.Proxy
